@@ -25,7 +25,9 @@ RULE = ("histories of 1..6 (thorough: up to 30) operations update_coordinates / 
         "degrees and 180 -+ 4e-6, 10 % of the off-grid cases, with in-plane / identity rotations that keep them there); "
         "INTEGER-TYPED COLUMNS: 15 % of the lists are built the way reading a STAR / CSV file builds them (every column whose values are all whole "
         "numbers is int64) and 9 % hold whole numbers only with chosen column groups (x y z / shifts / angles / the other 11 / all 20) int64, "
-        "met first by every kind of operation; DataFrame index default / permuted 0..n-1 / offset / sparse-descending / every label twice, "
+        "met first by every kind of operation; COLUMN ORDER: 30 % of the lists store the 20 columns in another order than Motl.motl_columns (Motl accepts "
+        "any order) -- interleaved x, shift_x, y, shift_y, z, shift_z / z, y, x / reversed / alphabetical / random permutation -- for every operation "
+        "(observations are read by column NAME); DataFrame index default / permuted 0..n-1 / offset / sparse-descending / every label twice, "
         "re-imposed by the caller before EVERY operation in 60 % of the cases (shift_positions resets it); dimension tables: one triple (list / "
         "tuple / 1-D or 1x3 ndarray, each also with python / numpy integers, float or int DataFrame, text file, IMOD .com file) or rows per "
         "tomogram (nested list / nested tuple / ndarray / DataFrame / text file, a single row also flat; shuffled, extra tomograms, duplicate rows "
@@ -1032,6 +1034,28 @@ def _push_flips(ops):
     return out, par
 
 
+_POSE6 = ("x", "y", "z", "shift_x", "shift_y", "shift_z")
+
+
+def _col_order(rng):
+    """a column order of the particle table other than Motl.motl_columns (Motl accepts the 20 columns in ANY order: check_df_correct_format
+    compares the sorted names): [label, names]"""
+    others = [c for c in COLS if c not in _POSE6]
+    k = rng.choice(["interleaved", "zyx", "reversed", "sorted", "perm", "perm"])
+    if k == "interleaved":  # assembled coordinate by coordinate: each position next to its residual shift
+        order = ["tomo_id", "subtomo_id", "x", "shift_x", "y", "shift_y", "z", "shift_z"] + [c for c in others if c not in ("tomo_id", "subtomo_id")]
+    elif k == "zyx":  # from a z, y, x (array index) ordered source
+        order = others + ["z", "y", "x", "shift_z", "shift_y", "shift_x"]
+    elif k == "reversed":
+        order = list(reversed(COLS))
+    elif k == "sorted":
+        order = sorted(COLS)
+    else:
+        order = list(COLS)
+        rng.shuffle(order)
+    return [k, order]
+
+
 def _tomos_of(rows):
     return sorted({r[TOMO] for r in rows})
 
@@ -1077,6 +1101,10 @@ def generate(rng, tier, n):
                     reindex=rng.random() < 0.6, bytomo=rng.random() < 0.35)
         if intcols:
             case["intcols"] = intcols
+        if rng.random() < 0.3:  # column-order stream: every operation meets a table whose 20 columns are not in the canonical order
+            case["colorder"] = _col_order(rng)
+            if two and rng.random() < 0.5:
+                case["colorder2"] = _col_order(rng)
         if two:
             case["rows2"] = [[f2b(v) for v in r] for r in rows2]
             case["index2"] = rng.choice(INDEX_KINDS)
@@ -1154,6 +1182,8 @@ def shrink(case):
     if len(ops) > 1:
         for i in range(len(ops)):
             yield dict(base, ops=ops[:i] + ops[i + 1:])
+    if case.get("colorder") or case.get("colorder2"):
+        yield {k: v for k, v in case.items() if k not in ("colorder", "colorder2")}
     if case.get("intcols"):
         yield {k: v for k, v in case.items() if k != "intcols"}
         if case["intcols"] != ["auto"] and len(case["intcols"]) > 1:
@@ -1197,7 +1227,8 @@ def sample_view(case):
     return dict(rows=[[b2f(b) for b in r] for r in case["rows"]][:3], n_rows=len(case["rows"]), fields=COLS,
                 n_rows2=len(case.get("rows2") or []), ops=[opv(o) for o in case["ops"]][:8], n_ops=len(case["ops"]),
                 twin=case.get("twin", {}).get("clause"), index=case.get("index"), reindex=case.get("reindex"), bytomo=case.get("bytomo"),
-                integer_typed_columns=case.get("intcols"))
+                integer_typed_columns=case.get("intcols"), column_order=(case.get("colorder") or ["motl_columns"])[0],
+                columns=(case.get("colorder") or [None, None])[1])
 
 
 def _norm_case(case):
@@ -1400,7 +1431,7 @@ def _index_labels(kind, n):
     return None
 
 
-def _build(rows, index, intcols=None):
+def _build(rows, index, intcols=None, colorder=None):
     import pandas as pd
     from cryocat import cryomotl
     data = {c: [b2f(r[j]) for r in rows] for j, c in enumerate(COLS)}
@@ -1412,6 +1443,8 @@ def _build(rows, index, intcols=None):
     for c in COLS:
         if c in want and len(df) and all(v == math.floor(v) and abs(v) < 2 ** 53 for v in data[c]):
             df[c] = df[c].astype("int64")
+    if colorder and sorted(colorder[1]) == sorted(COLS):
+        df = df[list(colorder[1])].copy()  # the same 20 columns, stored in another order
     lab = _index_labels(index, len(rows))
     if lab is not None:
         df.index = lab
@@ -1443,7 +1476,7 @@ def _run_history(case, ops, td):
     lists = [case["rows"]] + ([case["rows2"]] if case.get("rows2") else [])
     kinds = [case.get("index", "default"), case.get("index2", "default")]
     tomos = [sorted({b2f(r[TOMO]) for r in rows}) for rows in lists]
-    ms = [_build(rows, kinds[j], case.get("intcols")) for j, rows in enumerate(lists)]
+    ms = [_build(rows, kinds[j], case.get("intcols"), case.get("colorder2" if j == 1 and case.get("colorder2") else "colorder")) for j, rows in enumerate(lists)]
     bytomo = bool(case.get("bytomo"))
     snap_all = lambda: [_snap(m, tomos[j], bytomo) for j, m in enumerate(ms)]
     shared, steps = {}, []
@@ -2092,6 +2125,8 @@ def stats(case, obs, resps):
     out["op_on_nondefault_index"] = [o["kind"] for i, o in enumerate(ops) if (case.get("index2" if o.get("on", 0) else "index", "default") != "default") and (case.get("reindex") or not any(p["kind"] == "shift" and p.get("on", 0) == o.get("on", 0) for p in ops[:i]))]
     out["flip_dims"] = [("none" + ("/omitted" if o.get("omit") else "/None") if o["dims"] is None else ("single/" if "single" in o["dims"] else "undocumented-shape/" if "bad" in o["dims"] else "table/") + o.get("form", "") + ("/flat-row" if o.get("flat") and "table" in o["dims"] and len(o["dims"]["table"]) == 1 else "")) for o in ops if o["kind"] == "flip"]
     out["integer_typed_columns"] = "+".join(case.get("intcols") or ["none"])
+    out["column_order"] = (case.get("colorder") or ["motl_columns"])[0]
+    out["op_on_noncanonical_column_order"] = [o["kind"] for o in ops if case.get("colorder2" if o.get("on", 0) == 1 and case.get("colorder2") else "colorder")]
     out["near_gimbal_particle"] = any(r[THETA] % 180.0 != 0 and abs(math.sin(math.radians(r[THETA]))) < 2e-7 for r in vals)
     out["off_grid_decimal_values"] = any(r[j] * GRID != math.floor(r[j] * GRID) and round(r[j], 3) == r[j] for r in vals for j in POSE_IDX[:9])
     out["flip_noninteger_mirror_plane"] = any(o["kind"] == "flip" and o["dims"] and any(b2f(z) != math.floor(b2f(z)) for z in ([o["dims"]["single"]] if "single" in o["dims"] else [r[1] for r in o["dims"].get("table", [])])) for o in ops)
